@@ -20,6 +20,8 @@ Supported (everything else => None, never a guess):
                sig[lo:hi] @= e | sig[i] @= e | tmp = e | if/elif/else | for v in range(const[,const[,const>0]]) | pass
                (a loop whose body indexes a python LIST of signals through the loop variable is emitted as one
                single-iteration SFor per value, the variable being a known constant inside)
+               list_of_signals[ index_signal ] (read, or target of @= / <<=) is expanded into a chain over index == 0, 1, ...
+               whose last alternative raises (the IndexError of python); `sig //= lambda: e` blocks use the AST pymtl3 built
   expressions  signals, struct fields, int / bool literals, closure & global ints and Bits constants, component int
                attributes, temporaries, loop variables, + - * & | ^ << >>, ~, == != < <= > >=, x[lo:hi], x[i],
                a if c else b, concat, zext / sext / trunc (integer width), reduce_and / reduce_or / reduce_xor,
@@ -79,9 +81,11 @@ class Translator:
       s.slot[(id(ent[0]), ent[1])] = sig
       _live(ent[3])
     s.last_reason = None
-    ids = sorted(s.sigtab.values())
+    ids = sorted(set(s.sigtab.values()))
     assert ids == list(range(len(ids))), 'signal ids must be 0..n-1'
-    s.by_id = {i: q for q, i in s.sigtab.items()}
+    # several signal objects may share an id (signals sharing one storage object in the simulator)
+    s.by_id = {}
+    for q, i in s.sigtab.items(): s.by_id.setdefault(i, q)
 
   # ------------------------------------------------------------------ shapes
   def shape(s, T):
@@ -109,18 +113,21 @@ class Translator:
     """FunctionDef of the block: parsed from the function's own source (inspect; the net blocks GenDAGPass generates are
     registered in linecache without line terminators), else the AST pymtl3 cached in get_update_block_info"""
     tree = None
+    info = None
     try:
-      lines, _ = inspect.getsourcelines(blk)
-      tree = ast.parse(textwrap.dedent('\n'.join(l.rstrip('\r\n') for l in lines)))
+      host = s.top.get_update_block_host_component(blk)
+      info = host.get_update_block_info(blk)
     except Exception:
-      tree = None
-    if tree is None:
+      info = None
+    if info is not None and info[0]:
+      # `sig //= lambda: e`: pymtl3 compiled  def _lambda__<sig>(): <sig> @= e  from this very AST (ComponentLevel3)
+      tree = info[4]
+    else:
       try:
-        host = s.top.get_update_block_host_component(blk)
-        info = host.get_update_block_info(blk)
-        if info is not None and not info[0]: tree = info[4]      # info[0]: created from a lambda
+        lines, _ = inspect.getsourcelines(blk)
+        tree = ast.parse(textwrap.dedent('\n'.join(l.rstrip('\r\n') for l in lines)))
       except Exception:
-        tree = None
+        tree = info[4] if info is not None else None
     if tree is None: raise Outside('no source')
     if not (isinstance(tree, ast.Module) and len(tree.body) == 1 and isinstance(tree.body[0], ast.FunctionDef)):
       raise Outside('not a single function')
@@ -254,6 +261,7 @@ class _Block:
           if not o2.is_top_level_signal(): raise Outside('non top-level signal object')
           return b.mk_sig(o2)
         return ('obj', o2)
+      if base[0] == 'sel': raise Outside('attribute of a selected list element')
       _, sid, path, T = base
       if not b.tr.is_struct(T): raise Outside('attribute of a Bits signal')
       names = list(T.__bitstruct_fields__.keys())
@@ -269,7 +277,10 @@ class _Block:
       if isinstance(o, (list, tuple)):
         if isinstance(node.slice, ast.Slice): raise Outside('slice of a python list')
         k = b.const_int(node.slice)
-        if k is None: raise NeedsLoopValue('list indexed by a non-constant')
+        if k is None:
+          if any(isinstance(x, ast.Name) and x.id in b.loops and x.id not in b.loopval for x in ast.walk(node.slice)):
+            raise NeedsLoopValue('list indexed by a non-constant')          # unrolling the loop may make it constant
+          return b.sel_ref(o, node.slice)
         if not (-len(o) <= k < len(o)): raise Outside('list index out of range')
         k %= len(o)
         q = b.sig_of_slot(o, k)
@@ -282,8 +293,28 @@ class _Block:
       return None                                                # e.g. a Bits constant indexed: handled as a value
     return None
 
-  def width_of_type(b, T):
-    return T.nbits
+  def sel_ref(b, lst, idx_node):
+    """lst[ idx ] for a python list of top-level Bits signals and a signal-valued index: ('sel', idx term, [ids], Type).
+    Read as a chain of conditionals / written as a chain of ifs over idx == 0, 1, ... ; an index outside the list is
+    the IndexError python raises."""
+    sigs = []
+    for k in range(len(lst)):
+      q = b.sig_of_slot(lst, k)
+      if q is None:
+        q = lst[k] if isinstance(lst[k], b.tr.Signal) and lst[k].is_top_level_signal() else None
+      if q is None: raise Outside('list indexed by a non-constant')
+      sigs.append(q)
+    if not sigs: raise Outside('empty list')
+    T = sigs[0]._dsl.Type
+    if b.tr.is_struct(T) or any(q._dsl.Type is not T for q in sigs): raise Outside('list of signals of struct / mixed type indexed by a value')
+    ir = b.ref(idx_node)
+    if ir is None or ir[0] != 'sig' or b.tr.is_struct(ir[3]): raise Outside('list index that is not a Bits signal')
+    w = ir[3].nbits
+    b.rd.add(ir[1])
+    ids = [b.mk_sig(q)[1] for q in sigs]
+    return ('sel', ('sig', ir[1], ir[2]), ids[:min(len(ids), 1 << w)], T)
+
+  ERR_INDEX = ('index', ('sized', 1, 0), ('lit', 1))      # evaluates to IndexError
 
   # ---- expressions: returns (term, kind) ; kind = 'v' (Bits or int) | ('struct', T) | ('live', root)
   def expr(b, node):
@@ -305,6 +336,13 @@ class _Block:
       r = b.ref(node)
       if r is not None:
         if r[0] == 'obj': return b.const_obj(r[1], free=False), 'v'
+        if r[0] == 'sel':
+          _, idx, ids, T = r
+          e = b.ERR_INDEX
+          for k in reversed(range(len(ids))):
+            b.rd.add(ids[k])
+            e = ('if', ('cmp', 'CEq', idx, ('lit', k)), ('sig', ids[k], ()), e)
+          return e, 'v'
         _, sid, path, T = r
         b.rd.add(sid)
         if b.tr.is_struct(T): return ('sig', sid, path), ('struct', T)
@@ -312,6 +350,7 @@ class _Block:
       if isinstance(node, ast.Attribute): raise Outside('attribute of a computed value')
       # x[lo:hi] / x[i] on a signal, field or computed value
       base_ref = b.ref(node.value)
+      if base_ref is not None and base_ref[0] == 'sel': base_ref = None
       if base_ref is not None and base_ref[0] == 'sig':
         _, sid, path, T = base_ref
         if b.tr.is_struct(T): raise Outside('bit access into a struct value')
@@ -415,6 +454,16 @@ class _Block:
       else: raise Outside(f'augmented assignment {type(st.op).__name__}')
       tgt = st.target
       r = b.ref(tgt)
+      if r is not None and r[0] == 'sel':
+        _, idx, ids, T = r
+        e = b.expr(st.value)
+        if 'errtmp' not in b.tmps: b.tmps['errtmp'] = len(b.tmps)       # ('errtmp' is not a python identifier of the block)
+        chain = [('assign', b.next_lbl(), ('ltmp', b.tmps['errtmp']), b.ERR_INDEX, True)]
+        for k in reversed(range(len(ids))):
+          b.wr.add(ids[k])
+          chain = [('if', b.next_lbl(), ('cmp', 'CEq', idx, ('lit', k)),
+                    [('assign', b.next_lbl(), ('lsig', ids[k], ()), e, blocking)], chain)]
+        return chain
       if r is not None:
         if r[0] != 'sig': raise Outside('assignment to a non-signal')
         _, sid, path, T = r
